@@ -90,6 +90,12 @@ def Outcome.obsDyn (o : Outcome) (ts : TunnelState) (late : Late) : Obs :=
       | .forward _, _, _ => true
       | _, _, _ => false }
 
+/-- The property on the observation of "the mapping was revoked (the revocation returned), whatever other
+updates of the record were in flight; afterwards somebody presents credentials for a tunnel of that mapping":
+the record still says revoked and the request is refused. -/
+def holdsRevoked (recordRevoked : Bool) (o : Obs) : Bool :=
+  recordRevoked && o.ack == .fail && o.att == .none && !o.data
+
 /-- What the session manager's bookkeeping guarantees about a connection (established by the auth handlers,
 property C03): a client id is set only together with the authenticated flag. -/
 def identWF (id : ConnIdent) : Bool := id.clientID == 0 || id.authenticated
